@@ -480,7 +480,7 @@ func r09_5(c *Ctx, rule string) {
 		return c.DerivesFrom(v, func(y ssa.Value) bool { return c.isCallValueTo(y, "(io/fs.DirEntry).Info") }, 4)
 	})
 	c.R.Check(len(sym) == len(symAll), rule, base+"/symlink-test-on-entry", c.P.Pos(lit.Pos()), "the symlink test reads the mode of the entry being reported", "the test that tells a symlink's target from a hard-link name reads the mode of something other than the entry being reported (the sub-root's own stat?): symlink targets are prefixed like hard-link names")
-	nonSym := 0
+	nonSym, symArm := 0, 0
 	for i, s := range ls {
 		ok := joinWithDir(s.Val, func(v ssa.Value) bool { return isFieldLoad(v, "types.Stat.Linkname") })
 		con := fmt.Sprintf("%s/linkname-store#%d", base, i+1)
@@ -493,7 +493,16 @@ func r09_5(c *Ctx, rule string) {
 		if hit, _ := c.ReachableUnder(lit, as, nil, func(in ssa.Instruction) bool { return in == ssa.Instruction(s) }); hit != nil {
 			nonSym++
 		}
+		// ... or the symlink arm (absolute targets are re-rooted below the sub-root)
+		as2 := map[string]bool{}
+		for _, k := range sym {
+			as2[k] = true
+		}
+		if hit, _ := c.ReachableUnder(lit, as2, nil, func(in ssa.Instruction) bool { return in == ssa.Instruction(s) }); hit != nil {
+			symArm++
+		}
 	}
+	c.R.Check(symArm >= 1 || len(sym) == 0, rule, base+"/absolute-symlink-prefix", c.P.Pos(lit.Pos()), "absolute symlink targets are re-rooted below the sub-root", "the target of an absolute symlink inside a sub-root is no longer re-rooted below the sub-root's name: in the composite view it points at the composite root's namespace")
 	c.R.Check(nonSym >= 1 && len(sym) > 0, rule, base+"/hardlink-prefix", c.P.Pos(lit.Pos()), "hard-link names (non-symlink arm) are prefixed", "the link name of a hard link inside a sub-root is not prefixed with the sub-root's name: it names a path outside the composite view")
 	for _, call := range c.P.CallsTo(lit, "freevar:fn") {
 		ok := joinWithDir(call.Common().Args[0], func(v ssa.Value) bool { _, isP := v.(*ssa.Parameter); return isP })
